@@ -517,6 +517,7 @@ type obsBuild struct {
 	Decoded Outcome      `json:"decoded"`
 	KindsOK bool         `json:"kindsok"`
 	Kinds   string       `json:"kinds,omitempty"`
+	Again   bool         `json:"again"` // re-written after flag / value changes: still the document as it is
 	EncSame bool         `json:"encsame"` // Document.String() and Encoder.Encode agree
 }
 
@@ -534,6 +535,28 @@ func observeBuild(c buildCase) (obsBuild, error) {
 	o := obsBuild{Bom: doc.HasBOM, Built: built, Bytes: proj.B(text), Decoded: dec,
 		EncSame: encErr == nil && buf.String() == text, KindsOK: true, Nodes: len(built), Size: len(text)}
 	o.Same = dec.Out == "doc" && proj.EqualForest(dec.Forest, built) && dec.Bom == doc.HasBOM
+	// the same document written again after changes that are made through the public API without adding or removing a
+	// node (the BOM flag, the sex of an individual that has a SEX line): the text must be that of the document as it is now
+	o.Again = true
+	if len(text) < 1<<16 {
+		rewrite := func() bool {
+			d, _ := DecodeReal([]byte(doc.String()), Opts{})
+			return d.Out == "doc" && proj.EqualForest(d.Forest, proj.Forest(doc)) && d.Bom == doc.HasBOM
+		}
+		doc.HasBOM = !doc.HasBOM
+		o.Again = o.Again && rewrite()
+		doc.HasBOM = !doc.HasBOM
+		for _, ind := range doc.Individuals() {
+			if sexes := gedcom.NodesWithTag(ind, gedcom.TagSex); len(sexes) > 0 {
+				old := sexes[0].Value()
+				ind.SetSex("U")
+				o.Again = o.Again && rewrite()
+				ind.SetSex(old)
+				break
+			}
+		}
+		o.Again = o.Again && doc.String() == text
+	}
 	if doc2 != nil {
 		k2 := proj.Kinds(doc2)
 		if len(k2) != len(kindsBuilt) {
@@ -582,6 +605,8 @@ func ReplayBuild(r io.Reader, w io.Writer) error {
 			why = "BOM flag not preserved"
 		case !o.KindsOK:
 			why = "node kind differs: " + o.Kinds
+		case !o.Again:
+			why = "written again after a change of the BOM flag or of a SEX value: not the document as it is now"
 		}
 		if why != "" {
 			bad++
@@ -601,7 +626,8 @@ func allTags() []string {
 	for _, t := range gedcom.Tags() {
 		out = append(out, t.Tag())
 	}
-	return append(out, "_X", "_CUSTOM", "1A", "x_y", "Z9")
+	// custom tags that differ from a registered tag by letter case only stay custom tags
+	return append(out, "_X", "_CUSTOM", "1A", "x_y", "Z9", "Note", "date", "Sour", "_uid", "name", "Birt", "plac", "Sex", "Even")
 }
 
 // genForest draws a forest over every registered tag; depth up to maxDepth.
